@@ -85,6 +85,9 @@ def main():
                 report["checks"][p] = {"rc": rc, "lines": lines}
         finally:
             sh("git -C /repo checkout -- . && git -C /repo clean -fdq")
+            # restore the evidence files (and rebuilt binaries/tables) of the unchanged tree
+            for p in a.props.split(","):
+                sh("./check %s" % p, cwd="/verif", timeout=3600)
     print(json.dumps(report, indent=1))
 
 
